@@ -49,13 +49,24 @@ def seq_abs(notes=(), events=(), dur=None, ch_events=0, order="sane"):
     order="sane": messages are inserted in time order, at one tick offs, then signatures, then ons, so that a
     well-formed description always yields a well-formed stored order.  The other orders insert the SAME timed events
     in another sequence of calls (the library has to canonicalise ties itself): "reverse" = the sane order backwards,
-    "ons_first" = every note-on, then every note-off, then the other events."""
+    "ons_first" = every note-on, then every note-off, then the other events; "voices", "halves", "stride<k>": see below."""
     s = Sequence()
     items, _ = timed_list(notes, events, None, ch_events)
     if order == "reverse":
         items = items[::-1]
     elif order == "ons_first":
         items = [it for it in items if it[1] == 2] + [it for it in items if it[1] == 0] + [it for it in items if it[1] == 1]
+    elif order == "voices":      # voice by voice (voice = pitch modulo 3), signatures last
+        items = sorted(items, key=lambda it: (it[1] == 1, it[2] % 3))
+    elif order == "halves":      # first and second half of the piece alternating
+        h = len(items) // 2
+        items = [x for pair in zip(items[:h], items[h:2 * h]) for x in pair] + items[2 * h:]
+    elif isinstance(order, str) and order.startswith("stride"):
+        import math
+        k, m = int(order[6:]), len(items)
+        while m and math.gcd(k, m) != 1:
+            k += 2
+        items = [items[(i * k) % m] for i in range(m)]
     for it in items:
         m = it[4]
         m.time = it[0]
